@@ -564,13 +564,13 @@ theorem fraction_units_unchecked_witness :
 theorem default_branches :
     pointInitParams.lookup "branch" = some (some "guess") ∧ modelInitParams.lookup "branch" = some (some "ads") := by decide
 
-/-- arrays: standard keys, no other keys, marks guessed from the pressures (`splitAds`); a table: the given keys first, `branch` third unless the
-table has such a column (then it is used as it is and `branch=` is ignored), the remaining columns sorted -/
+/-- arrays: standard keys, no other keys, marks guessed from the pressures (`splitAds`); a table: the given keys first, `branch` third — also when
+the table has such a column (then it is used as it is and `branch=` is ignored) —, the remaining columns sorted -/
 theorem point_data_witness :
     pointData (⟨some [1, 2, 3, 2], some [1, 2, 3, 4], none, none, none, .str "guess"⟩ : PointArgs ℚ) =
       .ok ⟨"pressure", "loading", ["pressure", "loading", "branch"], [], [some 0, some 0, some 0, some 1]⟩ ∧
     pointData (⟨none, none, some ⟨["z", "p", "n", "branch", "a"], 2, [("p", [1, 2]), ("branch", [1, 0])]⟩, some "p", some "n", .str "ads"⟩ : PointArgs ℚ) =
-      .ok ⟨"p", "n", ["p", "n", "a", "branch", "z"], ["a", "z"], [some 1, some 0]⟩ ∧
+      .ok ⟨"p", "n", ["p", "n", "branch", "a", "z"], ["a", "z"], [some 1, some 0]⟩ ∧
     pointData (⟨none, none, some ⟨["z", "p", "n"], 2, [("p", [1, 2])]⟩, some "p", some "n", .str "des"⟩ : PointArgs ℚ) =
       .ok ⟨"p", "n", ["p", "n", "branch", "z"], ["z"], [some 1, some 1]⟩ ∧
     pointData (⟨some [1, 2], none, none, none, none, .str "guess"⟩ : PointArgs ℚ) = .error .param ∧
